@@ -415,9 +415,14 @@ class Ctx:
             if f["status"] == "open" and self.known_hits.get(f["id"]):
                 print(f"KNOWN-FINDING: property={self.pid} {f['id']}: {f['description']} "
                       f"({self.known_hits[f['id']]} cases this run)")
-        # one replay per distinct kind of failure first, then further instances, at most 10 lines
+        # one replay per distinct kind of failure first, then further instances, at most 10 lines.
+        # When the search found concrete failing inputs, those are the replays; broken obligations / model diffs of the
+        # same run are listed in the evidence only.
+        with_input = [v for v in self.violations if v["found_failing_input"]]
+        reported = with_input if with_input else self.violations
+        self.extra["events_without_failing_input"] = [v["what"][:200] for v in self.violations if not v["found_failing_input"]][:20]
         groups: dict = {}
-        for v in self.violations:
+        for v in reported:
             groups.setdefault((v["event"], re.sub(r"[0-9]+", "#", v["what"])[:70]), []).append(v)
         ordered = [g[0] for g in groups.values()] + [v for g in groups.values() for v in g[1:3]]
         printed = 0
